@@ -289,7 +289,13 @@ impl Resolver<'_> {
             return vec![wildcard_field];
         }
 
-        for (name, decl) in module.names.iter().sorted_by_key(|(_, d)| d.order) {
+        // ties in `order` (declarations of different sub-modules) are broken by name: the map's iteration order must not
+        // reach the column order
+        for (name, decl) in module
+            .names
+            .iter()
+            .sorted_by(|a, b| (a.1.order, a.0).cmp(&(b.1.order, b.0)))
+        {
             res.push(match &decl.kind {
                 DeclKind::Module(submodule) => {
                     let prefix = [prefix.to_vec(), vec![name]].concat();
